@@ -378,3 +378,112 @@ def local_uses(fn):
         elif t[0] in ("switch", "assert"):
             operand(t[1])
     return uses
+
+
+def const_walk(fn, start_bb, env, on_term, place_value=None, const_param=None, discr=None, limit=20000):
+    """Path exploration with integer constant propagation including arithmetic, comparisons and integer casts (a superset of
+    const_explore).  env: dict local -> int.  Hooks: place_value(place) gives the value of a projected place (a header field fixed by
+    the caller); const_param[name] the value of a const generic parameter; discr(place) the discriminant of a place.
+    on_term(bb, terminator, env, val_of) is called after the statements of each visited block (env may be modified; return False to stop).
+    Switches are followed only along edges consistent with known values; unwinding edges are not followed."""
+    from .facts import op_const
+    seen = set()
+    st = [(start_bb, tuple(sorted(env.items())))]
+    n = 0
+
+    def val_of(o, e):
+        k = op_const_int(o)
+        if k is not None:
+            return k
+        kk = op_const(o)
+        if kk is not None:
+            if const_param and kk.get("s") in const_param and "v" not in kk:
+                return const_param[kk["s"]]
+            return None
+        p = op_place(o)
+        if p is None:
+            return None
+        if len(p) == 1:
+            return e.get(p[0])
+        if len(p) == 2 and isinstance(p[1], list) and p[1][0] == "." and ("ovf", p[0]) in e:
+            return e[("ovf", p[0])] if p[1][1] == 0 else 0
+        return place_value(p) if place_value is not None else None
+
+    while st:
+        bb, envt = st.pop()
+        if (bb, envt) in seen:
+            continue
+        seen.add((bb, envt))
+        n += 1
+        if n > limit:
+            raise RuntimeError("const_walk: state limit exceeded in %s" % fn.path)
+        e = dict(envt)
+        for s in fn.stmts(bb):
+            if s[0] != "=" or len(s[1]) != 1:
+                continue
+            dst = s[1][0]
+            rv = s[2]
+            val = None
+            e.pop(("ovf", dst), None)
+            if rv[0] == "use":
+                val = val_of(rv[1], e)
+            elif rv[0] == "cast" and rv[1] == "IntToInt":
+                val = val_of(rv[2], e)
+            elif rv[0] == "discr" and discr is not None:
+                val = discr(rv[1])
+            elif rv[0] == "un" and rv[1] == "Not":
+                x = val_of(rv[2], e)
+                val = None if x is None else (0 if x else 1)
+            elif rv[0] == "bin":
+                a, b = val_of(rv[2], e), val_of(rv[3], e)
+                op = rv[1]
+                base = op.replace("WithOverflow", "").replace("Unchecked", "")
+                if a is not None and b is not None:
+                    r = None
+                    if base == "Add":
+                        r = a + b
+                    elif base == "Sub":
+                        r = a - b
+                    elif base == "Mul":
+                        r = a * b
+                    elif base in ("Eq", "Ne", "Lt", "Le", "Gt", "Ge"):
+                        r = int({"Eq": a == b, "Ne": a != b, "Lt": a < b, "Le": a <= b, "Gt": a > b, "Ge": a >= b}[base])
+                    elif base == "Shl" and 0 <= b < 64:
+                        r = a << b
+                    elif base == "Shr" and 0 <= b < 64:
+                        r = a >> b
+                    elif base == "BitAnd":
+                        r = a & b
+                    elif base == "BitOr":
+                        r = a | b
+                    if r is not None and op.endswith("WithOverflow"):
+                        e[("ovf", dst)] = r
+                        r = None
+                    val = r
+            if val is None:
+                e.pop(dst, None)
+            else:
+                e[dst] = val
+        t = fn.term(bb)
+        if t[0] == "call" and t[3] and len(t[3]) == 1:
+            e.pop(t[3][0], None)
+            e.pop(("ovf", t[3][0]), None)
+        if on_term(bb, t, e, val_of) is False:
+            continue
+        if t[0] == "switch":
+            v = val_of(t[1], e)
+            if v is not None:
+                tgt = t[3]
+                for val, x in t[2]:
+                    if int(val) == v:
+                        tgt = x
+                nxt = [tgt]
+            else:
+                nxt = fn.succs(bb)
+        else:
+            nxt = fn.succs(bb)
+        et = tuple(sorted(e.items(), key=repr))
+        for s in nxt:
+            if not fn.is_cleanup(s):
+                st.append((s, et))
+    return n
